@@ -283,6 +283,30 @@ pub fn run_case(case: &Case) -> Outcome {
             ));
         }
     }
+    if let Problem::Lin { center, .. } = &case.problem {
+        if case.relax_len == 0.0 && !case.cap_limited && center.len() == case.y0.len() && center.iter().zip(case.y0.iter()).all(|(a, b)| a == b) {
+            // a solution exactly at rest: every estimate is zero, so after the start-up every step is a maximal one
+            o.label("exactly-at-rest");
+            let steps = t_len / dt_max;
+            let (kmeas, krest) = match solver {
+                SolverKind::RK45 => (6.0, 18.0),
+                SolverKind::RK23 => (4.0, 12.0),
+                SolverKind::Adams5 => (3.7, 12.0),
+                SolverKind::Adams3 => (3.0, 9.0),
+                SolverKind::BDF6 => (7.1, 21.0),
+                SolverKind::BDF2 => (9.6, 30.0),
+                _ => (10.0, 30.0),
+            };
+            o.set(&format!("ratio_atrest_overhead_{}", solver.name()), (calls as f64 - kmeas * steps) / AT_REST_CONSTANT);
+            let allowed = krest * steps + AT_REST_CONSTANT;
+            if calls as f64 > allowed {
+                return o.fail(format!(
+                    "{}: solution exactly at rest, {steps:.1} maximal steps took {calls} derivative evaluations (allowed {krest} per maximal step + {AT_REST_CONSTANT}): the step does not start at / grow to the maximum although every error estimate is zero",
+                    solver.name()
+                ));
+            }
+        }
+    }
     if let Some(ts) = tail {
         // the relaxed tail: maximal steps, i.e. a fixed number of evaluations per maximal step
         o.label("relaxed-tail");
@@ -326,6 +350,9 @@ pub fn run_case(case: &Case) -> Outcome {
     o.pass()
 }
 
+/// start-up and regrowth allowance of the at-rest class (3x the largest overhead measured on the repaired tree)
+const AT_REST_CONSTANT: f64 = 200.0;
+
 fn o_cap() -> f64 {
     std::env::var("C05_WORK_CAP").ok().and_then(|s| s.parse().ok()).unwrap_or(2.0e4)
 }
@@ -362,8 +389,8 @@ pub fn run(opts: &Opts) -> i32 {
         spec.enumerated.push(Case { solver, problem: Problem::Lin { blocks: vec![(-1.0, 0.0), (-0.5, 1.0)], mix: vec![0.2; 16], center: vec![1.0, -2.0, 0.5] }, y0: vec![1.0, -2.0, 0.5], t0: 0.0, ldt: 0.2, min_exp: 7.0, tol: 1e-6, tlen: 5.0, at_rest: true, relax_len: 0.0, cplx: vec![], cap_limited: false });
     }
     spec.cases = opts.tier.pick(12_000, 400_000);
-    spec.essential = vec![("estimator-limited", 0.2), ("at-rest-or-relaxing", 0.1), ("generic", 0.1), ("bdf2", 0.08), ("rk23", 0.08), ("relaxing-long", 0.1), ("complex-field", 0.05), ("relaxed-tail", 0.03), ("cap-limited", 0.04)];
-    spec.rule = "generated: six adaptive solvers x problem family P incl. solutions at rest / relaxing to a steady state x tolerance 10^[-9,-3] x L dt_max in [0.05,0.5] (L = max of the Lipschitz constant and the forcing frequencies) x dt_min = dt_max 10^-[6,10] (a third of the plain cases 10^-[10,20], 1e-100 or 1e-300: a minimum step that is effectively switched off) x interval length 1-10 (shortened so that T L tol^(-1/p) <= 2e4; 3e5 for the long relaxations); the user function counts its calls and enforces the hard budget K (T L tol^(-1/p) + T/dt_max) + 400 (p = 4,2,4,2,6,2 for RK45, RK23, Adams5, Adams3, BDF6, BDF2; K = 100, 100, 100, 100, 300, 800). A sixth of the cases are long relaxations (every mode decays, start at distance O(1) from the steady state, 10-60 e-foldings of the slowest mode); for those the work is also held to K' x the integral of max(L (|y(t)-y*|/tol)^(1/p), 1/dt_max) dt along the exact solution (never more than the unit above; K' = 60, 40, 40, 30, 100, 300), and once the exact solution stays within 1e-3 tol of the steady state (tail of >= 50 maximal steps) the evaluations made at later times are held to K'' per maximal step + 400 (K'' = 18, 12, 12, 9, 21, 30: three times the measured evaluations per maximal step), i.e. the steps must regrow to the maximum once the solution has relaxed. One case in fourteen is cap-limited (decaying linear problem, maximum step so small that the local error at it is below tol/1000): the whole solve is held to K''' = 18, 12, 12, 9, 23, 33 evaluations per maximal step + 400. One case in thirteen is a complex-valued decoupled linear problem y_k' = (a_k + i w_k) y_k (dimension 1-2) held to the same budget. Oracle: the solve returns without error, ends at the ending time with a C01-valid path, and stays within the budget; at least one evaluation per maximal step. Non-trivial = estimator-limited path (a step below 0.98 dt_max) or the at-rest/relaxing class. Distinct = distinct case JSON.".into();
+    spec.essential = vec![("estimator-limited", 0.2), ("at-rest-or-relaxing", 0.1), ("generic", 0.1), ("bdf2", 0.08), ("rk23", 0.08), ("relaxing-long", 0.1), ("complex-field", 0.05), ("relaxed-tail", 0.03), ("cap-limited", 0.04), ("exactly-at-rest", 0.015)];
+    spec.rule = "generated: six adaptive solvers x problem family P incl. solutions at rest / relaxing to a steady state x tolerance 10^[-9,-3] x L dt_max in [0.05,0.5] (L = max of the Lipschitz constant and the forcing frequencies) x dt_min = dt_max 10^-[6,10] (a third of the plain cases 10^-[10,20], 1e-100 or 1e-300: a minimum step that is effectively switched off) x interval length 1-10 (shortened so that T L tol^(-1/p) <= 2e4; 3e5 for the long relaxations); the user function counts its calls and enforces the hard budget K (T L tol^(-1/p) + T/dt_max) + 400 (p = 4,2,4,2,6,2 for RK45, RK23, Adams5, Adams3, BDF6, BDF2; K = 100, 100, 100, 100, 300, 800). A sixth of the cases are long relaxations (every mode decays, start at distance O(1) from the steady state, 10-60 e-foldings of the slowest mode); for those the work is also held to K' x the integral of max(L (|y(t)-y*|/tol)^(1/p), 1/dt_max) dt along the exact solution (never more than the unit above; K' = 60, 40, 40, 30, 100, 300), and once the exact solution stays within 1e-3 tol of the steady state (tail of >= 50 maximal steps) the evaluations made at later times are held to K'' per maximal step + 400 (K'' = 18, 12, 12, 9, 21, 30: three times the measured evaluations per maximal step), i.e. the steps must regrow to the maximum once the solution has relaxed. Solutions exactly at rest are held to the same per-step counts + 200 (largest measured start-up overhead 62). One case in fourteen is cap-limited (decaying linear problem, maximum step so small that the local error at it is below tol/1000): the whole solve is held to K''' = 18, 12, 12, 9, 23, 33 evaluations per maximal step + 400. One case in thirteen is a complex-valued decoupled linear problem y_k' = (a_k + i w_k) y_k (dimension 1-2) held to the same budget. Oracle: the solve returns without error, ends at the ending time with a C01-valid path, and stays within the budget; at least one evaluation per maximal step. Non-trivial = estimator-limited path (a step below 0.98 dt_max) or the at-rest/relaxing class. Distinct = distinct case JSON.".into();
     spec.max_shrink_iters = 300;
     run_spec(spec, opts)
 }
